@@ -1,8 +1,8 @@
 CONSTANTS
   BufCap = 25
-  HeadLimit = 30
-  TotalLimit = 50
-  MaxRecs = 7
+  HeadLimit = 20
+  TotalLimit = 30
+  MaxRecs = 6
   MaxFiles = 3
   MaxCrash = 0
   MaxStop = 0
